@@ -4,6 +4,7 @@ import (
 	"bufio"
 	"fmt"
 	"io"
+	"os"
 	"os/exec"
 	"strconv"
 	"strings"
@@ -62,6 +63,11 @@ func NewSolver(kind string, timeoutMs int) (*Solver, error) {
 		return nil, err
 	}
 	s := &Solver{Kind: kind, cmd: cmd, in: in, out: bufio.NewReaderSize(outp, 1<<16), timeoutMs: timeoutMs}
+	if dir := os.Getenv("GOSYM_SMTLOG"); dir != "" {
+		if f, err := os.CreateTemp(dir, kind+"-*.smt2"); err == nil {
+			s.Log = f
+		}
+	}
 	s.defined = []map[int]bool{{}}
 	s.declared = []map[string]bool{{}}
 	s.send("(set-option :produce-models true)")
